@@ -5,7 +5,7 @@
   output assign <value>            -> err ValueError | ok <stored output> r<-|0|1> <act> <act> …
 
   event list:  `-` or events joined by `|`;   event: `<dest>:<etype>:<filters>`;
-  filters: `-` or scripts joined by `+`;  script: A | R | S~key~val | D~key | C~src~dst | T~key | U~key
+  filters: `-` or scripts joined by `+`;  script: A | R | S~key~val | D~key | C~src~dst | T~key | U~key | X | M~data
   acts:  q | f:<slot><idx>:<fidx>:<data> | d:<slot><idx>:<dest>:<etype>:<data>:<visible output>
 -/
 import EdzedModel.Output
@@ -30,6 +30,8 @@ def parseFilt (s : String) : Option Filt :=
   | ["C", a, b] => some (.copy a b)
   | ["T", k] => some (.ifTruthy k)
   | ["U", k] => some (.ifDefined k)
+  | ["X"] => some .clear
+  | ["M", m] => Filt.replace <$> Data.parse m
   | _ => none
 
 def parseEv (s : String) : Option Ev :=
